@@ -372,3 +372,6 @@ def decide_inconclusive(obs, results, cases):
     if obs.get('poisoned_batches_logged', 0) == 0 or obs.get('ensemble_errors', 0) == 0:
         return 'no failing batch / no EnsembleError was observed'
     return None
+
+
+RULE = RULE + '; failing calls raise 13 classes (control-flow classes, an unrebuildable class) and fail 3-40 call levels below call(); composites behind a failing stage; 1-3 process stages behind an ensemble; AsyncServer class cases incl. StopIteration'
